@@ -52,6 +52,21 @@ CONFIGS = [
     ("mocma_user", "mocma", {"lambda_": 6, "user": True}, "MO-CMA-ES (user-supplied initial population objects)"),
     ("es", "es", {}, "GA on lists (evolution strategy, array individuals with a strategy attribute)"),
     ("islands", "islands", {}, "GA on lists (three demes, tools.migRing)"),
+    # hardening round: sequences on the same objects, value domains, rarely used routes, boundaries
+    ("ga_reconf", "ga", {"reconf": True}, "GA on lists (logbook / archive reconfigured between generations through their public routes)"),
+    ("ga_array_reconf", "ga_array", {"reconf": True}, "GA on lists (array individuals, logbook with chapters: header/pop/del/remove between generations)"),
+    ("ga_p0", "ga", {"cxpb": 0.0, "mutpb": 0.0}, "GA on lists (cxpb = mutpb = 0: no evaluation task at all after generation 0)"),
+    ("ga_p1", "ga", {"cxpb": 1.0, "mutpb": 1.0, "indpb": 1.0}, "GA on lists (cxpb = mutpb = indpb = 1)"),
+    ("ga_tiny", "ga", {"n": 2, "len": 2, "hof": 1}, "GA on lists (population of 2, genome of 2, hall of fame of 1)"),
+    ("ga_special", "ga_special", {}, "GA on lists (-0.0, denormals, inf, ints > 2**53, numpy scalars as genes; weights 0.3 / -2.75)"),
+    ("nsga2_w", "nsga2", {"weights": [-3.0, -0.1], "nd": "log"}, "NSGA-II (weights -3 / -0.1, nd='log')"),
+    ("spea2_w", "spea2", {"weights": [-0.25, 7.0]}, "SPEA2 (weights -0.25 / +7)"),
+    ("cma_linear", "cma", {"strategy_kw": {"weights": "linear", "mu": 3, "lambda_": 9}, "relambda": [3, 12]},
+     "CMA-ES (linear weights, explicit mu; lambda changed and computeParams called in generation 3)"),
+    ("cma_equal", "cma", {"strategy_kw": {"weights": "equal", "lambda_": 4, "ccum": 0.5, "damps": 2.0}}, "CMA-ES (equal weights, lambda 4, explicit ccum/damps)"),
+    ("cma1pl_l1", "cma1pl", {"strategy_kw": {"lambda_": 1}, "relambda": [3, 5]}, "(1+1)-CMA, lambda raised to 5 in generation 3"),
+    ("cma_active_relambda", "cma_active", {"relambda": [3, 3]}, "(1+lambda)-CMA active (lambda set through the property setter in generation 3)"),
+    ("gp_harm", "gp_harm", {}, "GP with ephemerals (gp.harm loop, one call per generation)"),
     ("ea_simple", "ealoops", {"loop": "simple"}, "GA on lists (algorithms.eaSimple, one call per generation)"),
     ("ea_plus", "ealoops", {"loop": "plus"}, "GA on lists (algorithms.eaMuPlusLambda)"),
     ("ea_comma", "ealoops", {"loop": "comma"}, "GA on lists (algorithms.eaMuCommaLambda)"),
@@ -199,14 +214,34 @@ def runtime_part(run, jobs):
             os.makedirs(ck, exist_ok=True)
             entry = {"cfg": cfg, "label": label, "base": base, "ck": ck, "seed": seed, "ngen": e_ngen, "protocols": e_protocols,
                      "kinds": kinds}
+            # quick tier: the variants (not the eight named families) get a lighter plan: one re-run, one pool run, one
+            # protocol per checkpoint (alternating) -- every k is still enumerated
+            light = (not thorough) and (cor is None) and (cfg not in primary)
+            entry["light"] = light
             entry["ref"] = jobs.submit(dict(base, mode="full", keep_text=True))
             entry["twice"] = jobs.submit(dict(base, mode="twice")) if "twice" in kinds else None
+            # checkpointing (dump + load back in the same process) after every generation must not disturb the run
+            entry["ckptcont"] = jobs.submit(dict(base, mode="full", pickle_every_gen=e_protocols)) if "twice" in kinds else None
+            # two evolutions interleaved in one process (second seed): each must equal its own fresh-process run
+            entry["inter"] = None
+            if "twice" in kinds and fam != "modelga":
+                seed2 = rng.randrange(1, 2 ** 31)
+                entry["inter"] = (seed2, jobs.submit(dict(base, mode="interleave", seed2=seed2)),
+                                  jobs.submit(dict(base, mode="full", seed=seed2)))
             h2 = str(rng.randrange(1, 2 ** 32 - 1))
             entry["rep"] = [(dict(hashseed=h2, perturb=p), jobs.submit(dict(base, mode="full", perturb=p), hashseed=h2))
-                            for p in ([1, 3, 6] if not thorough else [0, 1, 2, 3, 5, 6])] if "rerun" in kinds else []
+                            for p in (([rng.choice([1, 3, 6])] if light else [1, 3, 6]) if not thorough else [0, 1, 2, 3, 5, 6])] \
+                if "rerun" in kinds else []
             entry["save"] = {k: jobs.submit(dict(base, mode="save", k=k, protocols=e_protocols, ckpt=ck))
                              for k in range(0, e_ngen + 1)} if "resume" in kinds else {}
-            ws = (pool_workers or sorted(rng.sample(range(1, 9), 3))) if "pool" in kinds else []
+            # chains: resume from k1, run on to k2, checkpoint again and be killed again, resume from that
+            entry["chains"] = []
+            if "resume" in kinds and e_ngen >= 2:
+                for _ in range(run.scale(1, 3)):
+                    k1 = rng.randrange(0, e_ngen - 1)
+                    k2 = rng.randrange(k1 + 1, e_ngen)
+                    entry["chains"].append((k1, k2, rng.choice(e_protocols), rng.choice(e_protocols)))
+            ws = (pool_workers or sorted(rng.sample(range(1, 9), 1 if light else 3))) if "pool" in kinds else []
             entry["pool"] = []
             # mp/mp_imap/cf: forked workers; mp_spawn: workers are fresh interpreters that rebuild types, primitive set and
             # toolbox in an initializer; cf_thread: threads
@@ -239,7 +274,8 @@ def runtime_part(run, jobs):
             if cfg == "spea2" and ref["error"]["type"] == "IndexError":
                 blocked.append("spea2 seed %d: reference run raises IndexError in selSPEA2 (C07 defect: loop variables "
                                "clobber k); family skipped until that fix is in /repo" % e["seed"])
-                for fut in [f for _, f in e["rep"]] + list(e["save"].values()) + [f for _, f in e["pool"]]:
+                for fut in [f for _, f in e["rep"]] + list(e["save"].values()) + [f for _, f in e["pool"]] + \
+                        [f for f in (e["twice"], e["ckptcont"]) if f is not None] + (list(e["inter"][1:]) if e["inter"] else []):
                     fut.result()
                 continue
             run.oracle_violation("uninterrupted run of an ordinary configuration raises", dict(case0, mode="full"),
@@ -298,6 +334,40 @@ def runtime_part(run, jobs):
                     report("twice", "identically seeded second run in the same process (same argument objects) differs from the first",
                            dict(case, which="second"), second, d or (ngen, "length"))
 
+        if e["ckptcont"] is not None:
+            r = e["ckptcont"].result()
+            case = dict(case0, mode="checkpoint_every_generation_and_continue", protocols=protocols)
+            run.note_case(case, True)
+            if r["res"] is None or r["res"]["error"] is not None:
+                run.oracle_violation("a run that pickles (and loads back) its checkpoint after every generation fails although the plain run "
+                                     "did not", case, observed=(r["res"] or {}).get("error") or r["log"])
+            else:
+                fam_cov["ckptcont"] = fam_cov.get("ckptcont", 0) + 1
+                d = compare(ref, r["res"])
+                if d or len(r["res"]["boundaries"]) != ngen + 1:
+                    report("ckptcont", "writing (and reading back) a checkpoint after every generation changes the run that continues",
+                           case, r["res"], d or (ngen, "length"))
+        if e["inter"] is not None:
+            seed2, fi, fr2 = e["inter"]
+            r, r2 = fi.result(), fr2.result()
+            case = dict(case0, mode="interleave", seed2=seed2)
+            run.note_case(case, True)
+            if r["res"] is None or r["res"]["error"] is not None or r2["res"] is None or r2["res"]["error"] is not None:
+                run.oracle_violation("two evolutions interleaved in one process fail although each alone does not", case,
+                                     observed=(r["res"] or {}).get("error") or (r2["res"] or {}).get("error") or r["log"])
+            else:
+                fam_cov["interleaved"] = fam_cov.get("interleaved", 0) + 1
+                d = compare(ref, r["res"])
+                if d or len(r["res"]["boundaries"]) != ngen + 1:
+                    report("interleave", "evolution interleaved with another one in the same process (generator states swapped by the script) "
+                           "differs from the same evolution alone", dict(case, which="first"), r["res"], d or (ngen, "length"))
+                second = dict(r["res"], boundaries=r["res"].get("boundaries_b", []))
+                d = compare(r2["res"], second)
+                if d or len(second["boundaries"]) != ngen + 1:
+                    g, comp = d or (ngen, "length")
+                    run.oracle_violation("second of two interleaved evolutions differs from the same evolution alone in a fresh process",
+                                         dict(case, which="second"), observed={"first_difference": {"generation": g, "component": comp}})
+
         # (a) fresh interpreter again (other hash seed / other allocation history)
         for (var, fut) in e["rep"]:
             r = fut.result()
@@ -328,7 +398,7 @@ def runtime_part(run, jobs):
             if d:
                 report("save", "run up to the checkpoint differs from the uninterrupted run", case, s["res"], d)
                 continue
-            for p in protocols:
+            for p in ([protocols[k % len(protocols)]] if e["light"] else protocols):
                 msg = s["res"]["unsupported_protocols"].get(str(p))
                 casep = dict(case0, mode="resume", k=k, protocol=p)
                 if msg is not None:
@@ -366,6 +436,35 @@ def runtime_part(run, jobs):
             if d or len(res["boundaries"]) != ngen + 1 - k:
                 report("resume", "killed after generation k and resumed from the pickle: state differs from the uninterrupted run",
                        case, res, d or (ngen, "length"))
+
+        # (b2) chained checkpoints: resume from k1, continue to k2, checkpoint and be killed again, resume from that
+        for (k1, k2, p1, p2) in e["chains"]:
+            s1 = e["save"].get(k1)
+            if s1 is None or s1.result()["res"] is None or s1.result()["res"]["error"] is not None \
+                    or str(p1) in s1.result()["res"]["unsupported_protocols"]:
+                continue
+            case = dict(case0, mode="chain", k=k1, k2=k2, protocol=p1, protocol2=p2)
+            run.note_case(case, True)
+            hop = "hop_%d_%d_%d_%d.pkl" % (k1, k2, p1, p2)
+            r1 = jobs.submit(dict(e["base"], mode="resume", k=k1, protocol=p1, ckpt=e["ck"], stop_k=k2, save_as=hop, protocols=[p2])).result()
+            if r1["res"] is None or r1["res"]["error"] is not None or r1["res"].get("unsupported_protocols"):
+                run.oracle_violation("resumed run cannot continue to a second checkpoint", case,
+                                     observed=(r1["res"] or {}).get("error") or (r1["res"] or {}).get("unsupported_protocols") or r1["log"])
+                continue
+            d = compare(ref, r1["res"], skip_stream_at=k1)
+            if d:
+                report("chain", "resumed run differs from the uninterrupted run before its second checkpoint", case, r1["res"], d)
+                continue
+            r2 = jobs.submit(dict(e["base"], mode="resume", k=k2, protocol=p2, ckpt=e["ck"], ckpt_file=hop)).result()
+            if r2["res"] is None or r2["res"]["error"] is not None:
+                run.oracle_violation("run resumed from the checkpoint of a resumed run fails", case,
+                                     observed=(r2["res"] or {}).get("error") or r2["log"])
+                continue
+            fam_cov["chains"] = fam_cov.get("chains", 0) + 1
+            d = compare(ref, r2["res"], skip_stream_at=k2)
+            if d or len(r2["res"]["boundaries"]) != ngen + 1 - k2:
+                report("chain", "killed and resumed twice (checkpoint of a resumed run): state differs from the uninterrupted run",
+                       case, r2["res"], d or (ngen, "length"))
 
         # (c) order-preserving parallel maps, completion order scrambled by per-task delays
         for (sched, fut) in e["pool"]:
